@@ -40,12 +40,28 @@ func generate(prop, tier string, base, index uint64) *RunDesc {
 		fmt.Fprintln(os.Stderr, "unknown property", prop)
 		os.Exit(2)
 	}
+	// simulated time between operations: mostly none, sometimes a jump (a cache
+	// with an expiry, a timestamp, a "last used" heuristic would notice)
+	tk := newRng(simrt.Mix(d.Seed, 5))
+	jumps := []int64{1e6, 1e9, 60e9, 3600e9, 25 * 3600e9, 400 * 24 * 3600e9}
+	for t := range d.Tasks {
+		for i := range d.Tasks[t] {
+			if tk.chance(3, 10) {
+				d.Tasks[t][i].Tick = pick(tk, jumps)
+			}
+		}
+	}
 	return d
 }
 
 // execute runs a description.  Pure function of (description, code).
 func execute(d *RunDesc) *RunResult {
 	res := &RunResult{Prop: d.Prop, Seed: d.Seed, RunIndex: d.RunIndex}
+	for _, t := range d.Tasks {
+		for _, op := range t {
+			res.Stats.SimNanos += op.Tick
+		}
+	}
 	b, _ := json.Marshal(d.Tasks)
 	res.Stats.DescHash = hashString(string(b))
 	switch d.Prop {
@@ -158,7 +174,7 @@ func main() {
 			_ = enc.Encode(res)
 		}
 		hits, io := simrt.Hits()
-		_ = enc.Encode(map[string]any{"done": true, "hits": hits, "io_yields": io})
+		_ = enc.Encode(workerDone{Done: true, Hits: hits, IOYields: io, ClockReads: simrt.ClockReads()})
 		out.Flush()
 	case "one":
 		startWatchdog(*wd)
